@@ -14,7 +14,13 @@ import (
 
 // OpenIndex opens an index file previously created using the IndexWriter.
 func OpenIndex(file string, opts ...IndexOption) (*Index, error) {
-	db, err := bbolt.Open(file, 0644, &bbolt.Options{OpenFile: openfile.OpenFile(openfile.Options{FailIfFileDoesntExist: true})})
+	// An index is never written to after it was created, so open it read-only: bbolt then
+	// only takes a shared file lock, and opening a file that is already open in this or in
+	// another process (e.g. with different options) succeeds instead of blocking forever.
+	db, err := bbolt.Open(file, 0644, &bbolt.Options{
+		ReadOnly: true,
+		OpenFile: openfile.OpenFile(openfile.Options{FailIfFileDoesntExist: true}),
+	})
 	if err != nil {
 		return nil, err
 	}
